@@ -65,6 +65,10 @@ def _images(ctx):
         else:
             lo, hi = (-(2 ** (bits - 1)), 2 ** (bits - 1) - 1) if signed else (0, 2 ** bits - 1)
             fr = nr.integers(lo, hi, size=shape, endpoint=True, dtype=np.int64)
+            if ts == JPEGLSLossless:
+                # pyjpegls cannot encode pure noise of tiny images into its destination buffer
+                base = np.add.outer(np.arange(nfr) * 3, np.add.outer(np.arange(rows) * 5, np.arange(cols) * 7))
+                fr = (base.reshape((nfr, rows, cols) + (1,) * (len(shape) - 3)) + nr.integers(0, 4, size=shape)) % (hi + 1)
             if r.random() < 0.3:
                 fr.flat[0] = hi
                 fr.flat[-1] = lo
@@ -265,9 +269,85 @@ def _helpers(ctx, reqs, pending):
     ctx.exhaustive.append(f'_standardize_frame_index on k,n in {rng.start}..{rng.stop - 1} x as_index')
 
 
+def _encapsulated(ctx, reqs, pending):
+    """Lazy reader on encapsulated data: offset table (L2, private attribute) and read_frame_raw (L0)
+    against Model/Offsets.lean, for stored / absent / extended tables and fragmented frames."""
+    import highdicom as hd
+    import pydicom
+    from pydicom.encaps import encapsulate, encapsulate_extended, generate_fragments
+    from pydicom.filebase import DicomBytesIO
+    from pydicom.uid import JPEGLSLossless, RLELossless
+    from gen.images import multiframe_image, to_bytes
+    for idx in range(ctx.n(12, 150)):
+        r = ctx.rng('enc', idx)
+        ts = r.choice([JPEGLSLossless, JPEGLSLossless, RLELossless])
+        nfr = r.choice([1, 2, 3, 4, 6])
+        rows, cols = r.randint(8, 14), r.randint(8, 14)
+        bits = r.choice([8, 16])
+        nr = ctx.np_rng('encpix', idx)
+        # smooth-ish content: pyjpegls cannot encode pure noise into its destination buffer
+        fr = (np.add.outer(np.arange(nfr) * 3, np.add.outer(np.arange(rows) * 5, np.arange(cols) * 7))
+              + nr.integers(0, 4, size=(nfr, rows, cols))).astype(np.int64) % (2 ** bits)
+        try:
+            ds = multiframe_image(fr, bits, ts, offset_table='none')
+        except Exception as e:  # noqa: BLE001
+            ctx.note(f'encapsulated generator failed: {type(e).__name__}')
+            continue
+        enc_frames = [bytes(f) for f in pydicom.encaps.generate_frames(ds.PixelData, number_of_frames=nfr)]
+        k = 1 if ts == RLELossless else r.choice([1, 2, 2, 3, 4])
+        ot = r.choice(['basic', 'none', 'extended'])
+        if ot == 'extended':
+            if k != 1:
+                k = 1
+            ds.PixelData, ds.ExtendedOffsetTable, ds.ExtendedOffsetTableLengths = encapsulate_extended(enc_frames)
+        else:
+            ds.PixelData = encapsulate(enc_frames, fragments_per_frame=k, has_bot=(ot == 'basic'))
+            for kw in ('ExtendedOffsetTable', 'ExtendedOffsetTableLengths'):
+                if kw in ds:
+                    del ds[kw]
+        blob = to_bytes(ds)
+        botlen = int.from_bytes(ds.PixelData[4:8], 'little')   # the first item is always the (possibly empty) BOT
+        frags = [list(f) for f in generate_fragments(ds.PixelData[8 + botlen:])]
+        d = {'idx': idx, 'ts': ts.name, 'frames': nfr, 'fragments_per_frame': k, 'table': ot, 'bits': bits}
+        st, rd = _fetch(hd.io.ImageFileReader, DicomBytesIO(blob))
+        if st != 'ok':
+            ctx.fail({'enc': d}, f'reader refused a valid encapsulated image: {rd}', site='ImageFileReader')
+            continue
+        with rd:
+            st, _ = _fetch(lambda: rd.metadata)
+            table = getattr(rd, '_offset_table', None)
+            if table is not None:
+                stored = []
+                if ot == 'basic':
+                    stored = [int.from_bytes(ds.PixelData[8 + 4 * q:12 + 4 * q], 'little') for q in range(botlen // 4)]
+                if ot == 'extended':
+                    # the extended table is used as it is (no rebuild): compare with the model's frame offsets
+                    reqs.append(('getBot', {'stored': [], 'frags': frags, 'n': nfr}))
+                else:
+                    reqs.append(('getBot', {'stored': stored, 'frags': frags, 'n': nfr}))
+                pending.append(({'enc': d, 'what': 'offset table', 'layer': 'L2'}, ('ok', [int(x) for x in table])))
+            for i in range(nfr):
+                st2, raw = _fetch(rd.read_frame_raw, i)
+                ctx.case(path='reader/enc', syntax=ts.name, table=ot, fragments=k,
+                         nontrivial_key=('enc', ts.name, ot, k, nfr, i, idx))
+                case = {'enc': d, 'i': i}
+                if st2 != 'ok':
+                    ctx.fail(case, f'read_frame_raw refused: {raw}', site='read_frame_raw/enc')
+                    continue
+                if bytes(raw) != enc_frames[i] and bytes(raw).rstrip(b'\x00') != enc_frames[i].rstrip(b'\x00'):
+                    ctx.fail(case, 'raw frame bytes differ from the encoded frame', site='read_frame_raw/enc')
+                if table is not None:
+                    reqs.append(('readFrameRawEnc', {'frags': frags, 'table': [int(x) for x in table], 'i': i}))
+                    pending.append((case, ('ok', list(raw))))
+                st3, val = _fetch(rd.read_frame, i, correct_color=False)
+                if st3 != 'ok' or not np.array_equal(np.asarray(val).astype(np.int64), fr[i]):
+                    ctx.fail(case, 'decoded lazy frame differs from the encoded array', site='read_frame/enc')
+
+
 def run(ctx):
     reqs, pending = [], []
     _helpers(ctx, reqs, pending)
+    _encapsulated(ctx, reqs, pending)
     for d, ds, fr in _images(ctx):
         _check_image(ctx, d, ds, fr, reqs, pending)
     _fixtures(ctx)
